@@ -165,7 +165,7 @@ def group_probe_stratum(ctx, d, n):
         ctx.event("group_probes")
 
 
-GRID_KINDS = ["item", "item-operands", "$and", "$or", "$not", "$and_any_order", "deref-operand", "or-operand"]
+GRID_KINDS = ["item", "item-operands", "$and", "$or", "$not", "$and_any_order", "deref-operand", "or-operand", "or1-operand", "and1-operand"]
 
 
 def bounds_grid_stratum(ctx, ws):
@@ -198,7 +198,7 @@ def bounds_grid_stratum(ctx, ws):
                 jobs.append((kind, r, lo, hi, "range"))
     # the same counts and bounds handed to the element as macro ARGUMENTS (`times: cnt` in the macro body, `cnt: 3` at the call)
     for kind in GRID_KINDS:
-        if kind in ("deref-operand", "or-operand"):
+        if kind in ("deref-operand", "or-operand", "or1-operand", "and1-operand"):
             continue
         for r in range(0, 5):
             for n in range(0, 6):
@@ -219,13 +219,15 @@ def bounds_grid_stratum(ctx, ws):
             nonlocal addr
             insts.append(L.SInst(addr, m, list(ops), None, None, 3))
             addr += 3
-        operand_kind = kind in ("deref-operand", "or-operand")
+        operand_kind = kind in ("deref-operand", "or-operand", "or1-operand", "and1-operand")
         put("hlt")
         if operand_kind:
             if r == 0:
                 put("lea", ["%rdx"])
             elif kind == "deref-operand":
                 put("vfoo", ["0x8(%rsi)"] * r + ["%rdx"])
+            elif kind in ("or1-operand", "and1-operand"):
+                put("vfoo", ["%rax"] * r + ["%rdx"])
             else:
                 put("vfoo", ["%rax" if k % 2 == 0 else "%rbx" for k in range(r)] + ["%rdx"])
         else:
@@ -246,6 +248,8 @@ def bounds_grid_stratum(ctx, ws):
         put("ret")
         if operand_kind:
             E = {"$deref": {"main_reg": "rsi", "constant_offset": "0x8"}, "times": t} if kind == "deref-operand" else {"$or": ["%rax", "%rbx"], "times": t}
+            if kind in ("or1-operand", "and1-operand"):
+                E = {"$or" if kind == "or1-operand" else "$and": ["%rax"], "times": t}          # an operator around ONE operand (an optional operand: times {min: 0, max: 1})
             mn = "lea" if r == 0 else "vfoo"
             pattern = ["hlt", {mn: [E, "%rdx"]}, "cli"]
             covered = 3
